@@ -18,6 +18,8 @@ BOUNDS = {
                   sources="every ordered subset of region letters + up to 2 surplus letters; number; ndarray exact / wrong shapes", histories="all ordered pairs of 2-d keys x {number, array}"),
     "thorough": dict(targets="quick + (a3,b3) (a2,b2,c2,d2) (c2,a3,b2)", keys="as quick", sources="as quick with 3 surplus letters", histories="pairs and triples"),
 }
+# dtype shadow: a float64 target receiving integer-dtype right-hand sides (differential concrete run)
+DTYPE_SHADOW = lambda cfg: "always" if cfg["h"] in ("whole_nd", "whole_num") else cfg["h"] in ("assign_fa", "history")
 OPTS = {"quick": dict(shadow_every=60), "thorough": dict(shadow_every=400)}
 
 TARGETS_Q = ["a2", "a2b3", "b3a2", "a2b2", "a2b3c2"]
@@ -168,6 +170,8 @@ def run(cfg, w):
     dims_all = {l: make_dim(l, lens.get(l, 2)) for l in "abcde"}
     shape = tuple(lens[l] for l in td)
     T = w.arr("t", shape)
+    if getattr(w, "int_arrays", False):
+        T = T.astype(np.float64)  # dtype shadow: the declared array keeps flodym's default dtype, what is assigned is integer
     from svx.configs import relayout
 
     lay = sum(map(ord, cfg["key"])) % 3
